@@ -326,7 +326,7 @@ class InstWorld(World):
             return
         srv = Server(ctx, plan["servertype"], pool=(1, 8))
         daemon = srv.daemon
-        plock = daemon.create_single_instance_lock = _ProbeLock(sched)
+        daemon.create_single_instance_lock = _ProbeLock(sched)     # same semantics, counts contention (probe only)
         for k, e in enumerate(objs):
             e["oid"] = "o%d" % k
             e["uri"] = srv.register(e["cls"], e["oid"])
@@ -452,7 +452,6 @@ class InstWorld(World):
             ctx.probe("concurrent_first_calls_overlapped")
         if sched.preempts:
             ctx.probe("preempted_in_getInstance")
-        del plock
         self._judge(ctx, plan, run, by_key, calls, conns)
 
     # ------------------------------------------------------------------ oracle
